@@ -12,7 +12,7 @@ PROPERTY = 'C19'
 RULE = ('accepted lines of the C02 generator (Intel syntax) x presentation-only rewrites: register case (incl. segment and st(i)), case of size keywords / PTR / OFFSET FLAT, '
         'spacing (no space after commas, doubled spaces, tabs, spaces inside brackets), decimal vs 0x / 0X numbers, negative vs two\'s-complement unsigned number at the operand '
         'width (8/16/32) and for displacements, [r+d] vs d[r] vs [d+r], [b+i*s] vs [i*s+b] (only when roles are unambiguous: scale != 1), optional % register prefix, '
-        'st vs st(0), and Intel <-> AT&T transliteration. A case = (rewrite, base line, variant); non-trivial = the base line has >= 1 candidate and the rewrite changed the text.')
+        'st vs st(0), and Intel <-> AT&T transliteration (through the reference printer, and directly written pairs for ALU/mov/test/push/imul immediates at every width boundary incl. negative values, register and memory destinations of 8/16/32 bits). A case = (rewrite, base line, variant); non-trivial = the base line has >= 1 candidate and the rewrite changed the text.')
 ASSUMPTIONS = ['rewrites that change base/index roles ([eax+ebx] vs [ebx+eax]) are not applied (the statement exempts them)',
                'the AT&T transliteration is the reference\'s (GNU as + objdump -M att), not miasmX\'s']
 
@@ -152,15 +152,61 @@ def run_batch(sh, batch):
             sh.violation('intel-att/%s/%s/sets-differ' % (fam, shape_k), 'Intel %r -> %s but AT&T %r -> %s' % (line, sorted(x.hex() for x in base)[:4], t, sorted(x.hex() for x in got)[:4]), wit)
 
 
+def direct_pairs():
+    """(Intel line, AT&T line, mnemonic, shape, value) written out directly (not through a reference printer, which never
+    prints negative immediates): ALU/mov/test with an immediate at every width boundary, destinations of 8/16/32 bits in
+    registers and in memory with and without displacement/index."""
+    out = []
+    regs = {8: [('al', '%al'), ('bh', '%bh')], 16: [('ax', '%ax'), ('si', '%si')], 32: [('eax', '%eax'), ('edi', '%edi')]}
+    mems = [('[eax]', '(%eax)'), ('[ebx+ecx*2+4]', '4(%ebx,%ecx,2)'), ('[ebp-4]', '-4(%ebp)'), ('[esi+64]', '64(%esi)'), ('[edx+4096]', '4096(%edx)')]
+    kw = {8: 'BYTE PTR', 16: 'WORD PTR', 32: 'DWORD PTR'}
+    for mn in ('mov', 'add', 'adc', 'sub', 'sbb', 'and', 'or', 'xor', 'cmp', 'test'):
+        for w, sfx in ((8, 'b'), (16, 'w'), (32, 'l')):
+            for v in asmgen.IMM_BOUNDARY:
+                for ri, ra in regs[w]:
+                    out.append(('%s %s, %d' % (mn, ri, v), '%s%s $%d, %s' % (mn, sfx, v, ra), mn, 'direct:r%d,i' % w, v))
+                for mi_, ma in mems:
+                    out.append(('%s %s %s, %d' % (mn, kw[w], mi_, v), '%s%s $%d, %s' % (mn, sfx, v, ma), mn, 'direct:m%d,i' % w, v))
+    for v in asmgen.IMM_BOUNDARY:
+        out.append(('push %d' % v, 'pushl $%d' % v, 'push', 'direct:i', v))
+        out.append(('imul ecx, ebx, %d' % v, 'imull $%d, %%ebx, %%ecx' % v, 'imul', 'direct:r32,r32,i', v))
+        out.append(('imul cx, WORD PTR [ebx+8], %d' % v, 'imulw $%d, 8(%%ebx), %%cx' % v, 'imul', 'direct:r16,m16,i', v))
+    return out
+
+
+def run_direct(sh, pairs):
+    from miasmx.arch.ia32_arch import x86mnemo
+    for li, la, mn, shape, v in pairs:
+        a, erra = asm_set(x86mnemo.asm, li)
+        b, errb = asm_set(x86mnemo.asm_att, la)
+        if not a and not b:
+            continue
+        sh.case(('direct', li, la), True, cls='intel-att-direct/%s' % shape)
+        wit = {'rewrite': 'intel-att', 'line': li, 'variant': la}
+        icls = asmgen.imm_class(v, int(re.search(r'(\d+),i$', shape).group(1)) if re.search(r'(\d+),i$', shape) else 32)
+        # keyed without the mnemonic: the differences observed on the unchanged tree come from the typing of immediates in the
+        # two front ends (plain int vs fixed-width), whatever the mnemonic
+        key = 'intel-att-direct/%s/%s' % (shape, icls)
+        if a and not b:
+            sh.violation(key + '/att-side-empty', 'Intel %r has %d candidates but its AT&T spelling %r has none (%s)' % (li, len(a), la, errb or 'empty list'), wit)
+        elif b and not a:
+            sh.violation(key + '/intel-side-empty', 'AT&T %r has %d candidates but its Intel spelling %r has none (%s)' % (la, len(b), li, erra or 'empty list'), wit)
+        elif a != b:
+            sh.violation(key + '/sets-differ', 'Intel %r -> %s but AT&T %r -> %s' % (li, sorted(x.hex() for x in a)[:4], la, sorted(x.hex() for x in b)[:4]), wit)
+
+
 NPARTS = 96
 
 
 def shards(tier, seed):
-    return [('p', p) for p in range(NPARTS)]
+    return [('p', p) for p in range(NPARTS)] + [('direct', i) for i in range(8)]
 
 
 def run_shard(shard, tier, seed):
     sh = common.Shard()
+    if shard[0] == 'direct':
+        run_direct(sh, [p for k, p in enumerate(direct_pairs()) if k % 8 == shard[1]])
+        return sh
     run_batch(sh, list(asmgen.lines(tier, seed, shard[1], NPARTS)))
     return sh
 
